@@ -13,6 +13,7 @@ import (
 	"strconv"
 	"strings"
 	"sync"
+	"sync/atomic"
 	"time"
 )
 
@@ -251,6 +252,17 @@ func FPKey(fp string) string {
 }
 
 // Finish writes the evidence file, the artefacts, prints the verdict lines and exits.
+var replayRan atomic.Bool
+
+// ReplayRan records that a replay found the scenario its artefact names and executed it.
+func ReplayRan() { replayRan.Store(true) }
+
+// NoRepro is called when a replayed sequence shows no violation.
+func NoRepro() {
+	replayRan.Store(true)
+	fmt.Println("replay: no violation reproduced")
+}
+
 func (r *Run) Finish() {
 	code := r.finish()
 	markFinished()
@@ -262,6 +274,10 @@ func (r *Run) finish() int {
 	defer r.mu.Unlock()
 	if r.shardOut != "" {
 		return r.writeShard()
+	}
+	if r.Replay != "" && !replayRan.Load() && len(r.viols) == 0 && len(r.harnessE) == 0 {
+		// a replay that never found what its artefact names must not look like a pass
+		r.harnessE = append(r.harnessE, "replay: the scenario or script named by "+r.Replay+" does not exist in this build of the check")
 	}
 	kn := loadKnown(r.Root)
 	unknown := 0
